@@ -52,6 +52,10 @@ def lin_const_value(a):
     return None
 
 
+class NotAdjacent(Gap):
+    """a store whose position cannot be shown to be adjacent to the bytes already written"""
+
+
 class Cover:
     def __init__(self, prog, fname, f, summaries):
         self.prog, self.fname, self.f = prog, fname, f
@@ -94,7 +98,9 @@ class Cover:
             if nm == self.dest:
                 return {}
             if nm in self.alias:
-                return dict(env.get("@" + nm, {}))
+                if "@" + nm not in env:
+                    raise Unknown("position of %s relative to the destination is not known" % nm)
+                return dict(env["@" + nm])
             return None
         if k == "BinaryOperator" and e.get("opcode") == "+":
             for a, b in ((kids(e)[0], kids(e)[1]), (kids(e)[1], kids(e)[0])):
@@ -110,8 +116,75 @@ class Cover:
         st = {"cov": {}, "env": {}}
         body = self.prog.body(self.f)
         self.returns = []
-        end = self.block(body, st)
+        self.blockm(body, [st])
         return self.returns
+
+    MAXSTATES = 24
+
+    def blockm(self, n, states):
+        """apply statement n to a disjunction of states (paths are kept apart; no join at if/switch)"""
+        states = [s for s in states if s is not None]
+        if not states:
+            return []
+        k = n.get("kind")
+        ks = kids(n)
+        if k == "CompoundStmt":
+            for c in ks:
+                states = self.blockm(c, states)
+                if not states:
+                    return []
+            return states
+        out = []
+        if k == "IfStmt":
+            for st in states:
+                st = self.expr(ks[0], st)
+                out += self.blockm(ks[1], [self._copy(st)])
+                out += self.blockm(ks[2], [self._copy(st)]) if len(ks) > 2 else [self._copy(st)]
+        elif k == "SwitchStmt":
+            for st in states:
+                out += self.switchm(n, st)
+        else:
+            for st in states:
+                r = self.block(n, st)
+                if r is not None:
+                    out.append(r)
+        # dedupe, cap
+        uniq = []
+        for s_ in out:
+            if not any(self._same(s_, u) and self._same(u, s_) for u in uniq):
+                uniq.append(s_)
+        if len(uniq) > self.MAXSTATES:
+            j = uniq[0]
+            for u in uniq[1:]:
+                j = self._join(j, u, n)
+            uniq = [j]
+        return uniq
+
+    def switchm(self, n, st):
+        ks = kids(n)
+        st = self.expr(ks[0], st)
+        body = ks[-1]
+        outs = [self._copy(st)]          # no case taken
+        cur = []
+        for s_ in kids(body):
+            inner = s_
+            is_label = False
+            while inner.get("kind") in ("CaseStmt", "DefaultStmt"):
+                inner = kids(inner)[-1]
+                is_label = True
+            if is_label:
+                cur = cur + [self._copy(st)]
+            if inner.get("kind") == "BreakStmt":
+                outs += cur
+                cur = []
+                continue
+            if cur:
+                cur = self.blockm(inner, cur)
+                if inner.get("kind") == "CompoundStmt" and any(x.get("kind") == "BreakStmt" for x in kids(inner)):
+                    outs += cur
+                    cur = []
+        outs += cur
+        return outs
 
     def block(self, n, st):
         k = n.get("kind")
@@ -119,11 +192,13 @@ class Cover:
         if st is None:
             return None
         if k == "CompoundStmt":
-            for c in ks:
-                st = self.block(c, st)
-                if st is None:
-                    return None
-            return st
+            res = self.blockm(n, [st])
+            if not res:
+                return None
+            j = res[0]
+            for u in res[1:]:
+                j = self._join(j, u, n)
+            return j
         if k == "NullStmt":
             return st
         if k == "DeclStmt":
@@ -155,11 +230,14 @@ class Cover:
                 st = self.expr(ks[0], st, is_return=True)
                 self.returns.append((n, st["ret"], st["cov"]))
             return None
-        if k == "IfStmt":
-            st = self.expr(ks[0], st)
-            a = self.block(ks[1], self._copy(st))
-            b = self.block(ks[2], self._copy(st)) if len(ks) > 2 else self._copy(st)
-            return self._join(a, b, n)
+        if k in ("IfStmt", "SwitchStmt"):
+            res = self.blockm(n, [st])
+            if not res:
+                return None
+            j = res[0]
+            for u in res[1:]:
+                j = self._join(j, u, n)
+            return j
         if k in ("WhileStmt", "DoStmt", "ForStmt"):
             return self.loop(n, st)
         if k == "SwitchStmt":
@@ -216,20 +294,23 @@ class Cover:
         # express cov through one variable the loop changes (the running index) and check the body keeps it
         mods = self._modified(n)
         last = None
+        notadj = None
         for cand in self._rebase_candidates(st, mods):
             st0 = cand
             try:
                 s1 = self.expr(cond, self._copy(st0)) if cond else self._copy(st0)
-                out = self.block(body, self._copy(s1))
-                if out is None:
-                    return st0
+                outs = self.blockm(body, [self._copy(s1)])
                 if inc:
-                    out = self.expr(inc, out)
-                if self._same(out, st0):
+                    outs = [self.expr(inc, o) for o in outs]
+                if all(self._same(o, st0) for o in outs):
                     return st0
                 last = "loop at %s does not keep written bytes in step with its index" % loc_str(n)
+            except NotAdjacent as g:
+                notadj = g
             except Unknown as u:
                 last = str(u)
+        if notadj is not None:
+            raise notadj
         raise Unknown(last or "loop at %s not understood" % loc_str(n))
 
     def _rebase_candidates(self, st, mods):
@@ -319,7 +400,8 @@ class Cover:
         gap = lin_add(start, st["cov"], -1)
         g = lin_const_value(gap)
         if g is None:
-            raise Unknown("fill loop starts at %s, written so far %s" % (start, st["cov"]))
+            raise NotAdjacent(body, "the fill loop starts at index %s while %s leading bytes are written: not provably adjacent to them"
+                              % (_show(start), _show(st["cov"])))
         if g > 0:
             raise Gap(body, "the fill loop starts at index %s but only %s leading bytes were written: %d byte(s) keep the buffer's previous contents"
                       % (_show(start), _show(st["cov"]), g))
@@ -376,7 +458,8 @@ class Cover:
                 gap = lin_add(off, st["cov"], -1)
                 g = lin_const_value(gap)
                 if g is None:
-                    raise Unknown("store at %s with %s bytes written" % (_show(off), _show(st["cov"])))
+                    raise NotAdjacent(e, "store at index %s while %s leading bytes are written: not provably adjacent to them (a gap would keep the buffer's previous contents)"
+                                      % (_show(off), _show(st["cov"])))
                 if g > 0:
                     raise Gap(e, "store at index %s but only %s leading bytes were written: %d byte(s) keep the buffer's previous contents"
                               % (_show(off), _show(st["cov"]), g))
@@ -389,6 +472,21 @@ class Cover:
             nm = ref_name(l)
             if nm is not None:
                 if nm in self.alias:
+                    if op in ("+=", "-="):
+                        st = self._ex(ks[1], st)
+                        dv = self.lin(ks[1], st["env"])
+                        key = "@" + nm
+                        cur = st["env"].get(key)
+                        if cur is None:
+                            raise Unknown("position of %s relative to the destination is not known" % nm)
+                        sgn = 1 if op == "+=" else -1
+                        sym = "#" + nm
+                        if cur == {sym: 1}:
+                            st = self._copy(st)
+                            if sym in st["cov"]:
+                                st["cov"] = lin_add(st["cov"], dv, -sgn * st["cov"][sym])
+                            return st
+                        return self._set(st, key, lin_add(cur, dv, sgn))
                     raise Unknown("destination alias reassigned")
                 rhs = strip(ks[1])
                 if rhs.get("kind") == "CallExpr":
@@ -421,7 +519,17 @@ class Cover:
                 d = 1 if m["opcode"] == "++" else -1
                 if nm in self.alias:
                     key = "@" + nm
-                    st = self._set(st, key, lin_add(st["env"].get(key, {}), lin_const(d)))
+                    cur = st["env"].get(key)
+                    if cur is None:
+                        raise Unknown("position of %s relative to the destination is not known" % nm)
+                    sym = "#" + nm
+                    if cur == {sym: 1}:
+                        # the symbol denotes the pointer's current offset: rebase everything else
+                        st = self._copy(st)
+                        if sym in st["cov"]:
+                            st["cov"] = lin_add(st["cov"], lin_const(d), -st["cov"][sym])
+                    else:
+                        st = self._set(st, key, lin_add(cur, lin_const(d)))
                 elif nm:
                     cur = st["env"].get(nm, {nm: 1})
                     st = self._set(st, nm, lin_add(cur, lin_const(d)))
@@ -438,7 +546,7 @@ class Cover:
                 gap = lin_add(off, st["cov"], -1)
                 g = lin_const_value(gap)
                 if g is None:
-                    raise Unknown("%s writes at %s with %s bytes written" % (cn, _show(off), _show(st["cov"])))
+                    raise NotAdjacent(e, "%s() is told to write at offset %s while %s leading bytes are written: not provably adjacent" % (cn, _show(off), _show(st["cov"])))
                 if g > 0:
                     raise Gap(e, "%s() is told to write at offset %s but only %s leading bytes were written" % (cn, _show(off), _show(st["cov"])))
                 self.fresh += 1
@@ -495,9 +603,11 @@ class Cover:
             return st
         if nm in st["cov"]:
             raise Unknown("variable %s that measures the written length is overwritten" % nm)
-        for k, v in st["env"].items():
-            if nm in v:
-                raise Unknown("variable %s used in the value of %s is overwritten" % (nm, k))
+        for k, v in list(st["env"].items()):
+            if nm in v and k != nm:
+                if k.startswith("@"):
+                    raise Unknown("variable %s that positions %s is overwritten" % (nm, k[1:]))
+                del st["env"][k]          # that local's value is no longer expressible
         st["env"][nm] = dict(val)
         return st
 
@@ -509,8 +619,8 @@ class Cover:
         return st
 
     def _same(self, a, b):
-        return a["cov"] == b["cov"] and all(a["env"].get(k) == v for k, v in b["env"].items() if k.startswith("@") or True) and \
-            set(a["env"]) == set(b["env"])
+        """a satisfies everything b states (same written length; every binding of b also holds in a)"""
+        return a["cov"] == b["cov"] and all(a["env"].get(k) == v for k, v in b["env"].items())
 
     def _join(self, a, b, node):
         if a is None:
@@ -586,10 +696,6 @@ def cover_rule(chk, prog, roles, rule="COVER"):
     for fn in order:
         f = lib[fn]
         key = "%s/%s" % (rule, fn)
-        if fn in AUDITED_COVER:
-            summ[fn] = "exact"
-            chk.ok(rule, key + "/audited", loc_str(f), "audited: %s" % AUDITED_COVER[fn])
-            continue
         n += 1
         try:
             rets = Cover(prog, fn, f, summ).run()
@@ -600,13 +706,24 @@ def cover_rule(chk, prog, roles, rule="COVER"):
         except Unknown as u:
             chk.broken(rule, key, loc_str(f), "the write pattern of %s is one the coverage analysis understands" % fn, str(u))
             continue
+        if fn in AUDITED_COVER:
+            # the stores are contiguous (checked above); the returned length is an audited loop invariant
+            summ[fn] = "exact"
+            chk.ok(rule, key + "/contiguous", loc_str(f), "%s stores contiguously from the start of its destination" % fn)
+            chk.ok(rule, key + "/audited-length", loc_str(f), "audited: %s" % AUDITED_COVER[fn])
+            continue
         ok = True
         why = ""
         for node, r, cov in rets:
             if r is None:
                 ok, why = None, "return value at %s is not a linear expression" % loc_str(node)
                 break
-            d = lin_const_value(lin_add(r, cov, -1))
+            dl = lin_add(r, cov, -1)
+            d = lin_const_value(dl)
+            if d is None and all(sym.startswith("ret") for sym in dl if sym):
+                ok, why = False, ("on a path it returns %s after writing %s leading bytes: equal only for one particular length returned by %s" %
+                                  (_show(r), _show(cov), ", ".join(sorted(sym.split(":")[-1] for sym in dl if sym))))
+                break
             if d is None:
                 ok, why = None, "returns %s with %s bytes written" % (_show(r), _show(cov))
                 break
